@@ -13,7 +13,7 @@ rc=0
 for w in $what; do
 case $w in
 gen)
-  ( cd $V/translators && { [ bin/gen -nt main.go ] && [ bin/gen -nt arch.go ] && [ bin/gen -nt nondet.go ] && [ bin/gen -nt slots.go ] && [ bin/gen -nt rpmflags.go ] && [ bin/gen -nt strfn.go ] && [ bin/gen -nt expand.go ] || go build -o bin/gen . ; } ) || { echo "BUILD-FAIL translators"; rc=1; }
+  ( cd $V/translators && { [ bin/gen -nt main.go ] && [ bin/gen -nt arch.go ] && [ bin/gen -nt nondet.go ] && [ bin/gen -nt slots.go ] && [ bin/gen -nt rpmflags.go ] && [ bin/gen -nt strfn.go ] && [ bin/gen -nt expand.go ] && [ bin/gen -nt withdefaults.go ] || go build -o bin/gen . ; } ) || { echo "BUILD-FAIL translators"; rc=1; }
   $V/translators/bin/gen "$REPO" $V/coq/Gen > $V/work/gen.log 2>&1 || { echo "GEN-FAIL (see work/gen.log)"; cat $V/work/gen.log; rc=1; }
   if [ -x $V/harness/bin/harness ]; then
     VERIF_REPO="$REPO" timeout 600 $V/harness/bin/harness GEN --out $V/coq/Gen >> $V/work/gen.log 2>&1 || { echo "GEN-FAIL harness GEN (see work/gen.log)"; tail -5 $V/work/gen.log; rc=1; }
